@@ -114,7 +114,7 @@ func TestC10Equiv(t *testing.T) {
 		base := g.Actions(func(t *rapid.T, err error) { cut = true })
 		acts := map[string]func(*rapid.T){}
 		for _, k := range []string{"create", "create2", "mkdir", "write", "write2", "write3", "symlink", "setattr", "setattr2", "read",
-			"remove", "remove2", "rmdir", "rename", "rename2", "lookup", "readdir", "readdirplus", "misc", "commit"} {
+			"remove", "remove2", "rmdir", "rename", "rename2", "movedir", "lookup", "readdir", "readdirplus", "misc", "commit"} {
 			acts[k] = base[k]
 		}
 		nbulk := 0
